@@ -64,3 +64,16 @@ Example C20_nonvacuous :
           [("solve_forces", None); ("bogus", None); ("distributions", Some "d.csv"); ("export_stl", None)]
   = [("solve_forces", Some "dir.json.d/in_solve_forces.json"); ("distributions", Some "d.csv"); ("export_stl", Some "dir.json.d/in.stl")].
 Proof. reflexivity. Qed.
+
+(* the rows of the distributions file are attributed to aircraft and segments by name: with the name columns as wide as the longest name
+   (at least 18 characters; fix a7579e9) every label in the file is the name itself, so distinct segments keep distinct labels; with the
+   fixed width of 18 characters of the pinned snapshot the two halves of a wing whose name has more than 12 characters share one label *)
+Theorem C20_csv_labels : forall names a b, In a names -> In b names ->
+  csv_label (name_width names) a = a /\ (csv_label (name_width names) a = csv_label (name_width names) b -> a = b).
+Proof. intros names a b Ha Hb. split; [exact (csv_labels_are_names names a Ha) | exact (csv_labels_injective names a b Ha Hb)]. Qed.
+Print Assumptions C20_csv_labels.
+Example C20_fixed_width_refuted :
+  csv_label 18 "main_wing_outboard_panel_left" = csv_label 18 "main_wing_outboard_panel_right" /\
+  "main_wing_outboard_panel_left" <> "main_wing_outboard_panel_right" /\
+  In "main_wing_outboard_panel_left" ["main_wing_outboard_panel_left"; "main_wing_outboard_panel_right"].
+Proof. split; [reflexivity | split; [discriminate | left; reflexivity]]. Qed.
